@@ -38,6 +38,7 @@ const (
 	ReqReuse       = 18
 	ReqMergeVec    = 19
 	ReqEnum        = 20
+	ReqBuilder     = 21
 )
 
 var Plugin = &zap.ZapPlugin{}
